@@ -8,5 +8,5 @@ dest=$(echo "$how" | grep -oE '(testscript/[a-z0-9]+|cmd/txtar-c|txtar|par|cache
 tests=$(grep -oE '^func (Test[A-Za-z0-9_]+)' $demo | awk '{print $2}' | paste -sd'|')
 r=$(./seedcheck.sh $out $dest -run "^($tests)\$" ./$dest 2>&1 | tail -1)
 c=""
-for chk in "$@"; do c="$c $(./seedrun.sh $out/patch.diff $chk 2>&1 | grep -E '^== |HARNESS' | head -2 | cut -c1-140 | tr '\n' ' ')"; done
+for chk in "$@"; do c="$c $(./seedrunw.sh $out/patch.diff $chk 2>&1 | grep -E '^== |HARNESS' | head -2 | cut -c1-140 | tr '\n' ' ')"; done
 echo "$out [$dest]: $r |$c"
